@@ -23,7 +23,7 @@ var frameRe = regexp.MustCompile(`^\s+(\S+)\(`)
 // reports de-duplicated by the pair of top pandora frames. inHarness counts reports none of
 // whose stacks has a pandora frame (harness bugs).
 func ParseRaceLogs(prefix string) (reports []RaceReport, raw int, inHarness int) {
-	files, _ := filepath.Glob(prefix + ".*")
+	files, _ := filepath.Glob(prefix + "*")
 	byKey := map[string]*RaceReport{}
 	for _, f := range files {
 		b, err := os.ReadFile(f)
